@@ -24,9 +24,12 @@ import (
 	"encoding/json"
 	"errors"
 	"fmt"
+	"context"
 	"io"
 	"math/big"
+	"net/http"
 	"strings"
+	"time"
 
 	"golang.org/x/crypto/acme"
 	"verifharness/hx"
@@ -171,7 +174,7 @@ func execJws(o hx.Op) string {
 	}
 	res := fmt.Sprintf("ok alg=%s jwk=%s kid=%s prot=%s payload=%s", alg, b(hasJWK), b(hasKID), hx.Hex(prot), hx.Hex([]byte(jws.Payload)))
 	if sc != nil {
-		return res + fmt.Sprintf(" digest=%s sig=%s", hx.Hex(sc.digest), hx.Hex(sig))
+		return res + fmt.Sprintf(" digest=%s sig=%s out=%s", hx.Hex(sc.digest), hx.Hex(sig), hx.Hex(out))
 	}
 	// real key: verify with the stdlib under the advertised alg
 	input := []byte(jws.Protected + "." + jws.Payload)
@@ -241,6 +244,67 @@ func execEab(o hx.Op) string {
 	return showMac(acme.VerifEncodeEAB(&scripted{pub: pub}, string(o.Hex("url")), &acme.ExternalAccountBinding{KID: string(o.Hex("kid")), Key: o.Hex("key")}))
 }
 
+func scriptedFrom(pub crypto.PublicKey, spec string) *scripted {
+	sf := strings.Split(spec, ":")
+	switch sf[0] {
+	case "der":
+		der, err := asn1.Marshal(struct{ R, S *big.Int }{hexBig(sf[1]), hexBig(sf[2])})
+		if err != nil {
+			return nil
+		}
+		return &scripted{pub: pub, sig: der}
+	case "raw":
+		return &scripted{pub: pub, sig: hx.UnHex(sf[1])}
+	case "fail":
+		return &scripted{pub: pub, fail: true}
+	}
+	return nil
+}
+
+// rollCA answers the directory and captures the body POSTed to the keyChange URL.
+type rollCA struct {
+	nonce, keyChange string
+	body             []byte
+}
+
+func (ca *rollCA) RoundTrip(req *http.Request) (*http.Response, error) {
+	h := http.Header{}
+	body := "{}"
+	switch {
+	case req.Method == "GET":
+		h.Set("Replay-Nonce", ca.nonce)
+		b, _ := json.Marshal(map[string]string{"newAccount": "https://ca.invalid/acct", "newOrder": "https://ca.invalid/order", "keyChange": ca.keyChange})
+		body = string(b)
+	case req.Method == "POST" && req.URL.String() == ca.keyChange:
+		ca.body, _ = io.ReadAll(req.Body)
+		h.Set("Replay-Nonce", "next")
+	default:
+		return nil, errors.New("unexpected request")
+	}
+	return &http.Response{StatusCode: 200, Status: "200 OK", Header: h, Body: io.NopCloser(strings.NewReader(body)), Request: req, ProtoMajor: 1, ProtoMinor: 1}, nil
+}
+
+func execRoll(o hx.Op) string {
+	oldPub, newPub := parsePub(o.Str("old")), parsePub(o.Str("new"))
+	if oldPub == nil || newPub == nil {
+		return "bad-op"
+	}
+	oldS, newS := scriptedFrom(oldPub, o.Str("sigo")), scriptedFrom(newPub, o.Str("sigi"))
+	if oldS == nil || newS == nil {
+		return "bad-op"
+	}
+	ca := &rollCA{nonce: string(o.Hex("nonce")), keyChange: string(o.Hex("url"))}
+	c := &acme.Client{Key: oldS, KID: acme.KeyID(o.Hex("kid")), DirectoryURL: "https://ca.invalid/dir", HTTPClient: &http.Client{Transport: ca},
+		RetryBackoff: func(int, *http.Request, *http.Response) time.Duration { return 0 }}
+	if err := c.AccountKeyRollover(context.Background(), newS); err != nil {
+		return "err"
+	}
+	if c.Key != crypto.Signer(newS) {
+		return "key-not-switched"
+	}
+	return "ok body=" + hx.Hex(ca.body)
+}
+
 func execB64(o hx.Op) string {
 	d := o.Hex("data")
 	e := base64.RawURLEncoding.EncodeToString(d)
@@ -268,6 +332,8 @@ func exec(line string) string {
 		return execEab(o)
 	case "b64":
 		return execB64(o)
+	case "roll":
+		return execRoll(o)
 	}
 	return "bad-op"
 }
@@ -473,6 +539,43 @@ func genRealJws(g *hx.Gen) {
 	g.Emit("jws key=%s priv=%s %s sig=real", pubSpec(k.Public()), hx.Hex(der), genCommon(r, g))
 }
 
+func scriptedSig(r *hx.Rand, g *hx.Gen, key string) string {
+	f := strings.Split(key, ":")
+	if f[0] == "ec" {
+		size := coordBytes(f[1])
+		switch c := r.Intn(12); {
+		case c < 10:
+			return fmt.Sprintf("der:%s:%s", bigHex(bytesShape(r, size, g, "rs")), bigHex(bytesShape(r, size, g, "rs")))
+		case c < 11:
+			return "raw:" + hx.Hex(r.Bytes(r.Range(0, 40)))
+		}
+		return "fail"
+	}
+	if r.Chance(1, 12) {
+		return "fail"
+	}
+	return "raw:" + hx.Hex(r.Bytes(hx.Pick(r, []int{1, 64, 128, 256})))
+}
+
+// genRoll: AccountKeyRollover with scripted old and new keys (RFC 8555 section 7.3.5)
+func genRoll(g *hx.Gen) {
+	r := g.R
+	old, nw := scriptedPub(r, g), scriptedPub(r, g)
+	kid := "https://ca.invalid/acct/" + genStr(r, g, 10, "kid")
+	nonce := "n" + genStr(r, g, 20, "nonce")
+	url := "https://ca.invalid/key-change"
+	if r.Bool() {
+		url = "https://ca.invalid/kc/" + strings.Map(func(c rune) rune {
+			if strings.ContainsRune("abcdefghijklmnopqrstuvwxyz0123456789-_./", c) {
+				return c
+			}
+			return -1
+		}, genStr(r, g, 12, "url"))
+	}
+	g.Emit("roll old=%s new=%s kid=%s nonce=%s url=%s sigi=%s sigo=%s", old, nw, hx.Hex([]byte(kid)), hx.Hex([]byte(nonce)), hx.Hex([]byte(url)), scriptedSig(r, g, nw), scriptedSig(r, g, old))
+	g.Stat("rollover")
+}
+
 func gen(g *hx.Gen) {
 	r := g.R
 	n := g.Count(6000, 350000)
@@ -490,6 +593,8 @@ func gen(g *hx.Gen) {
 		case c < 19:
 			key := r.Bytes(hx.Pick(r, []int{0, 16, 32, 32, 64, 65}))
 			g.Emit("eab acct=%s key=%s kid=%s url=%s", scriptedPub(r, g), hx.Hex(key), hx.Hex([]byte(genStr(r, g, 16, "kid"))), hx.Hex([]byte(genURL(r, g))))
+		case c < 20 && i%2 == 0:
+			genRoll(g)
 		default:
 			g.Emit("b64 data=%s", hx.Hex(r.Bytes(r.Intn(40))))
 		}
